@@ -15,8 +15,8 @@ import (
 
 // Val is a tagged abstract value (Coerce.tla "Abstract JSON / GraphQL values").
 type Val struct {
-	T  string // absent null nodef any bad int flt nstr str bool enum list obj var
-	C  string // integer class (int flt nstr)
+	T  string // absent null nodef any bad int flt fx nstr str bool enum list obj var
+	C  string // integer class (int flt nstr) / named float class (fx)
 	Fr bool   // flt: + 0.5
 	S  string // str bool enum
 	E  []*Val // list
@@ -46,7 +46,7 @@ func (v *Val) UnmarshalJSON(b []byte) error {
 		return json.Unmarshal(r, into)
 	}
 	switch v.T {
-	case "int", "nstr":
+	case "int", "nstr", "fx":
 		return get("c", &v.C)
 	case "flt":
 		if err := get("c", &v.C); err != nil {
@@ -81,6 +81,8 @@ func (v *Val) String() string {
 		return "int." + v.C
 	case "nstr":
 		return "nstr." + v.C
+	case "fx":
+		return "fx." + v.C
 	case "flt":
 		if v.Fr {
 			return "flt." + v.C + "+.5"
@@ -115,7 +117,7 @@ func (v *Val) String() string {
 // kindOf is a coarse class of a value (for evidence classes and violation keys).
 func (v *Val) kindOf() string {
 	switch v.T {
-	case "int", "nstr":
+	case "int", "nstr", "fx":
 		return v.T + "." + v.C
 	case "flt":
 		if v.Fr {
@@ -184,6 +186,7 @@ type Shape struct {
 	Type *Type  `json:"type"`
 	Def  *Val   `json:"def"`
 	Dir  bool   `json:"dir"`
+	FDir *Val   `json:"fdir"` // nodef | the arguments @dflt is applied with
 }
 
 type FieldDef struct {
@@ -191,7 +194,18 @@ type FieldDef struct {
 	Type *Type  `json:"type"`
 	Def  *Val   `json:"def"`
 	Dir  bool   `json:"dir"`
+	FDir *Val   `json:"fdir"`
 }
+
+// DirSite is one application of @dflt in the schema and what the directive must receive there.
+type DirSite struct {
+	Ty   string `json:"ty"` // "Query" (argument x of field Fld) or an input type (field Fld)
+	Fld  string `json:"fld"`
+	App  *Val   `json:"app"`
+	Sees *Val   `json:"sees"`
+}
+
+func (d *DirSite) Tag() string { return d.Ty + "." + d.Fld }
 
 type Schema struct {
 	Shapes  []*Shape                     `json:"shapes"`
@@ -201,7 +215,11 @@ type Schema struct {
 	Classes []string                     `json:"classes"`
 	Enum    []string                     `json:"enum"`
 	Ranges  map[string][]string          `json:"ranges"`
+	Floats  []string                     `json:"floats"`
+	DirDef  []*FieldDef                  `json:"dirdef"`
+	Sites   []*DirSite                   `json:"dirsites"`
 	byID    map[string]*Shape
+	byTag   map[string]*DirSite
 }
 
 type Src struct {
@@ -230,6 +248,7 @@ type Out struct {
 	V      *Val       `json:"v"`
 	Faults [][]string `json:"faults"`
 	Soft   [][]string `json:"soft"`
+	Dfl    [][]string `json:"dfl"` // positions holding an injected input FIELD default
 }
 
 type Case struct {
@@ -296,6 +315,13 @@ func runSpec(cfg string, timeout time.Duration) *specOut {
 			s.byID = map[string]*Shape{}
 			for _, sh := range s.Shapes {
 				s.byID[sh.ID] = sh
+			}
+			s.byTag = map[string]*DirSite{}
+			for _, st := range s.Sites {
+				s.byTag[st.Tag()] = st
+			}
+			if len(s.Sites) == 0 || len(s.DirDef) == 0 || len(s.Floats) == 0 {
+				vlib.Infra("schema line without directive sites / named floats")
 			}
 			out.schema = &s
 		case isGrid:
